@@ -133,9 +133,20 @@ def applyPresel (s : State) : List Presel → State
   | .delete r l :: ps => applyPresel (s.setObj r { s.obj r with toDelete := some l }) ps
   | .add r :: ps => applyPresel (s.setObj r { s.obj r with toAdd := some s.ctx.template }) ps
 
+/-- decode the user's edit of a `!run` event -/
+def runEdit (inp : Inputs) : List V3 × Option V3 :=
+  if inp.draws.isEmpty then (inp.ops, none) else (inp.ops.dropLast, inp.ops.getLast?)
+
 def runTrials (sim : Sim) : List TrialIn → State → List String → List String
   | [], _, acc => acc.reverse
   | t :: ts, s, acc =>
+    if t.name = "!run" then
+      -- a run boundary: the user's edit (new positions = the ops; with a draw, the last op is the new cell), then
+      -- `validate_simulation()`
+      let (pos, cell) := runEdit t.inp
+      let s1 := newRun sim s pos cell
+      runTrials sim ts s1 (("U" ++ (snapshot .accepted s1).drop 1) :: acc)
+    else
     match sim.table.find? (fun e => e.name = t.name) with
     | none => (("unknown-move " ++ t.name) :: acc).reverse
     | some e =>
